@@ -317,6 +317,13 @@ def component_names(ctx) -> None:
     load = prog.func(f'{BODY}:Components.load')
     sw = [c for c in core.calls_in(load.node) if isinstance(c.func, ast.Attribute) and c.func.attr == 'startswith' and core.src(c.func.value) == 'name' and len(c.args) == 1 and 'err' not in core.src(c.args[0])]
     ctx.floor('C18.components', len(sw), 1)
+    # ... and is imported from the artifact's own directory: the loader call carries the `path` the components were asked for
+    # (without it the module resolves through sys.path - with two releases installed, the first one found serves both)
+    loads = [c for c in core.calls_in(load.node) if core.src(c.func) == 'setup.load']
+    ctx.floor('C18.components.load', len(loads), 1)
+    for c in loads:
+        bound = [core.src(a) for a in c.args] + [f'{k.arg}={core.src(k.value)}' for k in c.keywords]
+        ctx.check(len(c.args) >= 3 and core.src(c.args[2]) == 'path' or any(k.arg == 'path' and core.src(k.value) == 'path' for k in c.keywords), 'C18.components', load, f'setup.load imports the component from the requested path ({bound})', c, key='load:path')
     for c in sw:
         arg = c.args[0]
         defs = [a.value for a in core.walk_local(load.node) if isinstance(a, ast.Assign) and core.src(a.targets[0]) == core.src(arg)] if isinstance(arg, ast.Name) else [arg]
